@@ -61,12 +61,13 @@ CHECKS = {
 
     "C09": dict(
         pkg="p_broker", level="exploration",
-        technique='model-based property testing of connection generations with wills (QoS, retain, payload sizes incl. 0 and 64 KiB-1) ended by DISCONNECT, abrupt close or protocol error, observed by a witness subscriber',
+        technique='model-based property testing of connection generations with wills (QoS, retain, payload sizes incl. 0 and 64 KiB-1) ended by DISCONNECT, abrupt close or protocol error, observed by a witness subscriber; plus a harness-scheduled reconnect of the same client identifier while the will of the ending connection is still being handed on',
         level_text="Generated sequences of CONNECT (with/without will, CleanSession 0/1) and connection ends over 1-3 client identifiers; after the teardown-done event of the ended connection the witness (subscribed to '#' at QoS 2) is cut: it must have received exactly one PUBLISH with the ending connection's own will topic/payload/QoS (retain flag 0 live, retained store updated iff will-retain) for abnormal ends and nothing after a DISCONNECT packet; never a will of an earlier generation. Sampling.",
         level_note='Trusted: harness/ref/match, harness/ref/codec (strict parsing of every received byte), the reference model in harness/p_broker/model.go, and the barrier argument (a PINGRESP proves that everything the broker did for earlier packets of that client is committed). Known finding empty-level is excluded by a variant model run in lock-step.',
         rule='rapid-generated plans; non-trivial = a will became due on a resumed session (an earlier generation of the id existed) or a held will was suppressed by DISCONNECT; distinct = FNV-64 of the plan JSON',
-        assumptions=['keep-alive expiry as a cause of connection end is covered by C19', 'one live connection per client identifier'],
-        units=[dict(name="sequential", test="TestC09", checks=(3000, 200000), shards=(4, 14), timeout=(240, 3000))]),
+        assumptions=['keep-alive expiry as a cause of connection end is covered by C19', 'unit sequential: one live connection per client identifier; wills fit the buffers of the connections they are delivered to (BufferSize - 8192)', 'unit will-vs-reconnect: the reconnect is placed while the delivery of the will to one chosen subscriber is parked; other moments of the teardown are not varied'],
+        units=[dict(name="sequential", test="TestC09", checks=(3000, 200000), shards=(4, 14), timeout=(240, 3000)),
+               dict(name="will-vs-reconnect", test="TestC09WillResume", checks=(800, 100000), shards=(4, 14), timeout=(240, 3000))]),
 
     "C10": dict(
         pkg="p_broker", level="exploration",
@@ -110,6 +111,7 @@ CHECKS = {
             dict(name="client-role", test="TestC12Client", checks=(3000, 400000), shards=(4, 14), timeout=(240, 3000)),
             dict(name="broker-role", pkg="p_broker", test="TestC12Broker", checks=(4500, 600000), shards=(4, 14), timeout=(240, 3000)),
             dict(name="retained-concurrent", pkg="p_broker", test="TestC12RetConc", checks=(1600, 300000), shards=(4, 14), timeout=(240, 3000)),
+            dict(name="id-wrap", pkg="p_broker", test="TestC12Wrap", kind="enum", shards=(4, 14), timeout=(240, 3000)),
         ]),
 
     "C13": dict(
